@@ -157,10 +157,14 @@ def overlapping_types(schema, scope):
 
 
 # ---- catalogue V -----------------------------------------------------------------------------------------------------------
+DEFAULT_KINDS = ("R1", "R2", "R3", "R4", "R5", "R6", "R8", "R9", "R10", "R11", "R13")
+ALL_KINDS = DEFAULT_KINDS + ("R14", "R15", "R16")
+
+
 def neighbours(schema, document, kinds=None):
     """yield (kind, document') — validity is decided by the caller (E5 certification)"""
     def want(k):
-        return kinds is None or k in kinds
+        return (k in DEFAULT_KINDS) if kinds is None else (k in kinds)
 
     conts = containers(schema, document)
     for path, node, scope in conts:
@@ -233,12 +237,52 @@ def neighbours(schema, document, kinds=None):
                                 defs[oi] = replace(defs[oi], vars=defs[oi].vars + (VarDef(vn, vtype, default),),
                                                    shorthand=False)
                             yield "R8", replace(d2, defs=tuple(defs))
+            # R14 pass an argument through a fresh variable (variables flowing through fragments when inside one)
+            if want("R14") and isinstance(s, Field) and scope is not None:
+                fd = schema.field_def(scope, s.name)
+                ops = reaching_ops(document, path[0])
+                if fd is not None and ops:
+                    for ad in fd.args:
+                        if any(a.name == ad.name for a in s.args):
+                            continue
+                        vn = fresh(document, "v")
+                        d2 = put(replace(s, args=s.args + (Arg(ad.name, Var(vn)),)))
+                        defs = list(d2.defs)
+                        for oi in ops:
+                            defs[oi] = replace(defs[oi], vars=defs[oi].vars + (VarDef(vn, doc.type_to_str(ad.type)),), shorthand=False)
+                        yield "R14", replace(d2, defs=tuple(defs))
+            # R15 custom directive on this node (no argument / literal / variable)
+            if want("R15") and schema.directive("dq") is not None and not any(d.name == "dq" for d in s.dirs):
+                yield "R15", put(replace(s, dirs=s.dirs + (Directive("dq"),)))
+                yield "R15", put(replace(s, dirs=s.dirs + (Directive("dq", (Arg("n", IntV("2")), Arg("t", StrV("x")))),)))
+                ops = reaching_ops(document, path[0])
+                if ops:
+                    vn = fresh(document, "d")
+                    d2 = put(replace(s, dirs=s.dirs + (Directive("dq", (Arg("n", Var(vn)),)),)))
+                    defs = list(d2.defs)
+                    for oi in ops:
+                        defs[oi] = replace(defs[oi], vars=defs[oi].vars + (VarDef(vn, "Int"),), shorthand=False)
+                    yield "R15", replace(d2, defs=tuple(defs))
             # R9 swap neighbours
             if want("R9") and i + 1 < len(sel):
                 yield "R9", set_container_sel(document, path, sel[:i] + (sel[i + 1], s) + sel[i + 2:])
             # R13 delete a selection (keeps BFS closed under shrinking; the validator discards empty sets)
             if want("R13") and len(sel) > 1:
                 yield "R13", set_container_sel(document, path, sel[:i] + sel[i + 1:])
+    # R15 custom directive on definitions ; R16 introspection meta fields at the query root
+    if want("R15") and schema.directive("dq") is not None:
+        for di, d in enumerate(document.defs):
+            if isinstance(d, (Operation, Fragment)) and not any(x.name == "dq" for x in d.dirs):
+                nd = replace(d, dirs=d.dirs + (Directive("dq"),))
+                if isinstance(d, Operation):
+                    nd = replace(nd, shorthand=False)
+                yield "R15", replace(document, defs=document.defs[:di] + (nd,) + document.defs[di + 1:])
+    if want("R16"):
+        for path, node, scope in conts:
+            if scope == schema.query and scope is not None:
+                yield "R16", set_container_sel(document, path, node.sel + (Field("__schema", None, (), (), (Field("queryType", None, (), (), (Field("name"),)),)),))
+                yield "R16", set_container_sel(document, path, node.sel + (Field("__type", None, (Arg("name", StrV("A")),), (), (Field("name"), Field("kind"))),))
+                yield "R16", set_container_sel(document, path, (Field("__type", "t", (Arg("name", StrV("Nope")),), (), (Field("name"),)),) + node.sel)
     # R10 add a named operation
     if want("R10"):
         ops = document.operations
